@@ -9,7 +9,7 @@ mkdir -p $T/out; rsync -a --exclude .git /repo/ $T/tree/; cp /verif/known_findin
 if ! (cd $T/tree && GIT_DIR=/nonexistent git apply --whitespace=nowarn "$PATCH" 2>/dev/null || patch -p1 -s -i "$PATCH" >/dev/null 2>&1); then echo "PATCH-DOES-NOT-APPLY $PATCH"; exit 4; fi
 rc=0
 for p in ${PROPS//,/ }; do
-  out=$(cd /verif && NCGVERIF_CHILD=1 ./bin/ncgverif -repo $T/tree -prop $p -verif $T/out 2>&1); r=$?
+  out=$(cd /verif && NCGVERIF_CHILD=1 ${BIN:-./bin/ncgverif} -repo $T/tree -prop $p -verif $T/out 2>&1); r=$?
   echo "== $p exit=$r"
   echo "$out" | grep -E '^(FAILED|UNDECIDED|VIOLATION|KNOWN)' | grep -v '^VIOLATION' | head -${SHOW:-12}
   [ $r -ne 0 ] && rc=1
